@@ -234,8 +234,10 @@ Section E.
     induction fuel as [|fuel IH]; intros c v path Hw Hd.
     - pose proof (depth_pos c). lia.
     - inversion Hw as [m vals subs Hm Hsubs]; subst. simpl.
-      destruct (m_deps m) as [reqs|] eqn:Edeps; [|simpl; exact Hw].
-      assert (Hreqs : Forall nonnil reqs) by (unfold deps_nonnil in Hm; now rewrite Edeps in Hm).
+      match goal with |- context [if ?b then _ else _] => destruct b end; [simpl; exact Hw|].
+      set (reqs := match m_deps m with Some r => r | None => [] end).
+      assert (Hreqs : Forall nonnil reqs).
+      { unfold reqs, deps_nonnil in *. destruct (m_deps m); [exact Hm|constructor]. }
       assert (HQ : Forall (fun x => wf x /\ chart_depth x <= fuel) subs).
       { rewrite Forall_forall in *. intros x Hx. split; [auto|].
         simpl in Hd. pose proof (depth_sub_le x subs Hx). lia. }
